@@ -13,11 +13,11 @@ pub static DEF: CheckDef = CheckDef {
     id: "C03",
     run,
     replay,
-    rule: "multi-bank ROMs (MBC1 with 8 and 64 banks, MBC3 with 32 banks) whose banks hold different generated blocks (different instructions, different lengths, different terminators) at the same eight slot addresses 0x4000 + k*0x40, bank-0 blocks, bank-0 trampolines (LD A,v; LD (bank register),A; JP slot) and a bank-0 block that runs through 0x3FFF into the switchable bank (its last instruction straddling the boundary in three of four ROMs). proptest histories of 1-60 operations over {run slot k, run bank-0 block j, guest switch (trampoline: value, register, slot), host switch (write to 0x0000-0x7FFF between blocks), switch back to the first bank, continue (follow the last block's own terminator), run the fall-through block}. Three executors are stepped with Core::run_code_block(): the jit build with its persistent cache, the jit build with a new empty cache before every step, the interpreter build. After every step all CPU/device scalars and the complete memory must be pairwise identical. Plus one long run of the bank-switching cache-pressure program (C04): the 8 MiB translation area is recycled every few iterations with different banks mapped, and addresses translated before a restart are executed again after it. Non-trivial = history that executes a slot address under a different mapped bank than the one it was first translated under (class revisit-after-switch), and ones that return to the first bank afterwards (switch-back); measured on the interpreter build; distinct by hash of (cartridge, history).",
+    rule: "multi-bank ROMs (MBC1 with 8 and 64 banks, MBC3 with 32 banks) whose banks hold different generated blocks (and different one-byte instructions on their last three bytes, where a block ends with the region) (different instructions, different lengths, different terminators) at the same eight slot addresses 0x4000 + k*0x40, bank-0 blocks, bank-0 trampolines (LD A,v; LD (bank register),A; JP slot) and a bank-0 block that runs through 0x3FFF into the switchable bank (its last instruction straddling the boundary in three of four ROMs). proptest histories of 1-60 operations over {run slot k, run bank-0 block j, guest switch (trampoline: value, register, slot), host switch (write to 0x0000-0x7FFF between blocks), switch back to the first bank, continue (follow the last block's own terminator), run the fall-through block}. Three executors are stepped with Core::run_code_block(): the jit build with its persistent cache, the jit build with a new empty cache before every step, the interpreter build. After every step all CPU/device scalars and the complete memory must be pairwise identical. Plus one long run of the bank-switching cache-pressure program (C04): the 8 MiB translation area is recycled every few iterations with different banks mapped, and addresses translated before a restart are executed again after it. Non-trivial = history that executes a slot address under a different mapped bank than the one it was first translated under (class revisit-after-switch), and ones that return to the first bank afterwards (switch-back); measured on the interpreter build; distinct by hash of (cartridge, history).",
     assumptions: &[
         "the interpreter build is the reference; blocks in the switchable region never write below 0x8000 (known finding C01 jit-self-bank-switch is excluded by construction)",
     ],
-    required_classes: &["cache-restart-with-banks", "revisit-after-switch", "switch-back", "guest-switch", "host-switch", "fall-through-4000", "mbc1", "mbc1-large", "mbc3", "cold-cache-step", "continue-step"],
+    required_classes: &["cache-restart-with-banks", "revisit-after-switch", "switch-back", "guest-switch", "host-switch", "fall-through-4000", "mbc1", "mbc1-large", "mbc3", "cold-cache-step", "continue-step", "block-at-the-last-bytes-of-the-bank"],
     exhaustive: false,
 };
 
@@ -31,6 +31,9 @@ enum Op {
     SwitchBack,
     Continue,
     FallThrough,
+    /// run the block that starts on one of the last three bytes of the switchable bank
+    /// (one-byte instructions that differ from bank to bank; the block ends with the region)
+    RunEdge(u8),
 }
 
 #[derive(Clone, Debug, serde::Serialize, serde::Deserialize)]
@@ -166,6 +169,15 @@ fn build_rom(cart: u8, seed: u16) -> RomImage {
             }
         }
     }
+    // the last three bytes of every switchable bank: one-byte instructions that differ from
+    // bank to bank (blocks starting there end with the region)
+    for bank in 1..banks {
+        let ops = [0x3cu8, 0x04, 0x0c, 0x14, 0x1c, 0x24, 0x2c, 0x3d];
+        let at = bank * 0x4000 + 0x3ffd;
+        rom.bytes[at] = ops[bank % 8];
+        rom.bytes[at + 1] = ops[(bank + 3) % 8];
+        rom.bytes[at + 2] = ops[(bank * 5 + 1) % 8];
+    }
     // fall-through block: one-byte instructions up to 0x3FFF, no terminator; in three
     // of four ROMs the last instruction straddles 0x3FFF/0x4000 (operand bytes from the mapped bank)
     for a in FALL_START..0x4000 {
@@ -198,6 +210,7 @@ struct Stats {
     host: bool,
     fall: bool,
     cont: bool,
+    edge: bool,
     left_domain: bool,
     excluded_known: bool,
 }
@@ -254,6 +267,10 @@ fn exec(c: &Case, st: &mut Stats) -> CaseResult {
             Op::FallThrough => {
                 st.fall = true;
                 set_pc = Some(FALL_START as u16 + 3);
+            }
+            Op::RunEdge(k) => {
+                st.edge = true;
+                set_pc = Some(0x7fff - (*k as u16 % 3));
             }
         }
         if !step {
@@ -332,7 +349,7 @@ fn run_case(c: &Case, rec: &mut Rec, counting: bool) -> CaseResult {
         rec.eval(1);
         rec.class(["mbc1", "mbc1-large", "mbc3"][c.cart as usize % 3], 1);
         rec.class("cold-cache-step", c.ops.len() as u64);
-        for (n, on) in [("revisit-after-switch", st.revisit), ("switch-back", st.back), ("guest-switch", st.guest), ("host-switch", st.host), ("fall-through-4000", st.fall), ("continue-step", st.cont)] {
+        for (n, on) in [("revisit-after-switch", st.revisit), ("switch-back", st.back), ("guest-switch", st.guest), ("host-switch", st.host), ("fall-through-4000", st.fall), ("continue-step", st.cont), ("block-at-the-last-bytes-of-the-bank", st.edge)] {
             if on {
                 rec.class(n, 1);
             }
@@ -359,6 +376,7 @@ fn op_strategy() -> impl Strategy<Value = Op> {
         1 => Just(Op::SwitchBack),
         3 => Just(Op::Continue),
         1 => Just(Op::FallThrough),
+        2 => (0u8..3).prop_map(Op::RunEdge),
     ]
 }
 
